@@ -205,6 +205,14 @@ class Tr:
             if op == "||":
                 return self.B(e[2], env, T, self.B(e[3], env, T, F))
             if op in ("==", "!=", "<", ">", "<=", ">="):
+                # one spelling for "is not zero" on `usize`: `x != 0`, `0 != x`, `0 < x` are emitted as `x > 0`
+                zero = ("int", 0)
+                def is_zero(x):
+                    return x[0] in ("int", "num", "lit") and str(x[1]).replace("_", "") in ("0", "0usize")
+                if op == "!=" and is_zero(e[3]):
+                    return self.B(("bin", ">", e[2], e[3]), env, T, F)
+                if op in ("!=", "<") and is_zero(e[2]):
+                    return self.B(("bin", ">", e[3], e[2]), env, T, F)
                 lop = {"==": "=", "!=": "≠", "<=": "≤", ">=": "≥"}.get(op, op)
                 return self.N(e[2], env, lambda a: self.N(e[3], env, lambda b: f"if {a} {lop} {b} then {T} else {F}"))
         if t == "index" and e[1] == ("var", "received"):
